@@ -22,7 +22,7 @@ class Oracle(object):
 
     def __init__(self, sc, run, which):
         self.sc, self.run, self.which = sc, run, which
-        self.plan = [sc['target']] if sc.get('target') is not None else list(sc['plan'])
+        self.plan = H.effective_plan(sc)
         self.nodup = len(set(self.plan)) == len(self.plan)
         self.cursor = 0              # plan positions < cursor have been consumed (sent or skipped)
         self.touched = set()         # hosts that got a message or were skipped with a recorded reason
@@ -42,6 +42,15 @@ class Oracle(object):
         pre_state = run.state() if idx else None
         pre_exc = run.future._final_exception
         pre_done = self.pre_done = run.completed()     # first outcome wins: a completed request keeps its outcome
+        new_page = op[0] == 'page' and bool(run.future._paging_state)
+        if new_page:
+            # fetching a further page: a fresh plan (the explicit target again, or the load balancer's plan for this fetch)
+            # and a request without outcome again
+            self.plan = [sc['target']] if sc.get('target') is not None else H.page_plan(sc, op[1])
+            self.nodup = len(set(self.plan)) == len(self.plan)
+            self.cursor = 0
+            pre_done = self.pre_done = False
+            pre_exc = None
         pre_cl = getattr(run.future.message, 'consistency_level', None)
         pools = list(env.pool_state)
         n_cons = len(env.consults)
@@ -110,11 +119,19 @@ class Oracle(object):
 
         # ------------------------------------------------ messages and skips of this step, in the order they happened
         first = True
+        task_sent = False
         for e in ev:
             if e[0] == 1:
                 justified = False
                 if first and task_exp:
-                    justified = self.task_send(task_exp, e, pools, pre_exc, pre_cl, op)
+                    justified = task_sent = self.task_send(task_exp, e, pools, pre_exc, pre_cl, op)
+                elif task_sent:
+                    # the executor task's own message went out; the task must not ALSO walk the plan
+                    kind = task_exp['kind']
+                    self.flag({'retry': 'retry.extra_message', 'reprepare': 'reprepare.extra_message'}.get(kind, 'resend.extra_message'),
+                              'the %s task sent its message to host %d and then a second message %r in the same step (%r)' % (
+                                  kind, task_exp['host'], e, op),
+                              {'C16': 'C16_obeys_retry', 'C17': 'C17_other_sends_are_tasks'}.get(self.which, 'C19_reprepare'))
                 first = False
                 if not justified:
                     self.plan_send(e, pools, st, op, task_exp, pre_cl)
@@ -134,7 +151,7 @@ class Oracle(object):
         if task_exp and not sends:
             self.task_nosend(task_exp, pools, pre_exc, st, op)
         if self.which == 'C17' and not sends and not pre_done and not (st['exc'] and st['exc'][0] == 5) and (
-                op[0] == 'start' or (task_exp and task_exp['kind'] == 'retry')):
+                op[0] == 'start' or new_page or (task_exp and task_exp['kind'] == 'retry')):
             # a send_request with error_no_hosts=True ends with a message or with NoHostAvailable
             self.flag('walk.neither_sent_nor_failed', 'after %r no message was sent and the request did not fail with NoHostAvailable '
                       '(plan %r, pools %r)' % (op, self.plan, [H.POOL_NAMES[p] for p in pools]), 'C17_order')
@@ -322,6 +339,8 @@ def grow(sc, rng, which, max_ops=14, weights=None, env_changes=True):
     started = False
     for i in range(max_ops):
         choices = M.enabled_ops(run, rng, sc, started)
+        if started and run.future._paging_state and run.completed() and not run.open_attempts() and not run.env.queue:
+            choices = choices + [('page',)] * 3
         if env_changes and started and rng.random() < 0.12:
             op = ['pool', rng.randrange(sc['n']), rng.choice([0, 1, 2, 3, 4, 5, 6, 6, 6])] if rng.random() < 0.8 \
                 else ['ks', rng.choice([None, 1, 2])]
@@ -331,6 +350,10 @@ def grow(sc, rng, which, max_ops=14, weights=None, env_changes=True):
             c = rng.choice(choices)
             if c[0] == 'resp':
                 op = ['resp', c[1], M.random_resp(rng, sc, run.env.sent[c[1]]['kind'] == 1, weights, lambda: next(tagc))]
+            elif c[0] == 'page':
+                pl = list(range(sc['n']))
+                rng.shuffle(pl)
+                op = ['page', pl[:rng.randint(1, sc['n'])]]
             else:
                 op = list(c)
         started = True
@@ -377,7 +400,7 @@ def evaluate(ctx, which, items):
             ctx.count('op', op[0])
             if op[0] == 'resp':
                 ctx.count('response', ['rows', 'void', 'prepared', 'retryable:' + (H.KIND_NAMES[op[2][1]] if op[2][0] == 3 else ''),
-                                       'unprepared', 'other_error', 'other_exception', 'junk'][op[2][0]])
+                                       'unprepared', 'other_error', 'other_exception', 'junk', 'rows_more_pages'][op[2][0]])
                 kinds.add(op[2][0])
         ctx.count('plan_len', len(sc['plan']))
         ctx.count('target', 'explicit' if sc.get('target') is not None else 'plan')
